@@ -435,7 +435,7 @@ def gen_cases(rng, tier, n):
                     case["entry"] = "function"
                 cases.append(case)
     return (cases + history_cases(rng, max(20, n // 25)) + closed_cases(rng, max(40, n // 8)) + fixed_cases()
-            + map_cases(rng, max(40, n // 10)) + fc_cases(rng, max(60, n // 12)) + mapfield_cases(rng, max(60, n // 10)) + ku_cases(rng, max(30, n // 16)) + des_cases(rng, max(40, n // 12)) + mi_cases(rng, max(60, n // 8)))
+            + map_cases(rng, max(40, n // 10)) + fc_cases(rng, max(60, n // 12)) + scalar_cases(rng, max(80, n // 10)) + mapfield_cases(rng, max(60, n // 10)) + ku_cases(rng, max(30, n // 16)) + des_cases(rng, max(40, n // 12)) + mi_cases(rng, max(60, n // 8)))
 
 
 def _flat(name, fields, mapper, opt=()):
@@ -713,6 +713,8 @@ def run_impl(case):
         return run_map(case)
     if case.get("oracle") == "fc":
         return run_fc(case)
+    if case.get("oracle") == "scalar":
+        return run_scalar(case)
     cd = case["cls"]
     registry = {}
     cls = build_class(cd, registry)
@@ -883,6 +885,10 @@ def mapper_kinds(cd, acc):
 
 
 def tags(case, impl, model):
+    if case.get("oracle") == "scalar":
+        r = impl.get("deser", {})
+        return ["stream=scalar-leaves(oracle-only)", f"camel={case['camel']}", "scalar.nest=" + str(case["nest"]),
+                "scalar.roundtrip=" + ("equal" if r.get("equal") else "different")]
     if case.get("oracle") == "fc":
         r = impl.get("deser", {})
         return ["stream=functioncall(oracle-only)", "fc.where=" + case["where"], f"fc.own={case['own']}",
@@ -954,6 +960,9 @@ def nontrivial(case):
 
 
 def describe(case, impl, model):
+    if case.get("oracle") == "scalar":
+        return {"stream": "non-Integer scalar leaves (oracle-only)", "case": {k: v for k, v in case.items() if k not in ("picks", "absent")},
+                "real_document": impl.get("doc"), "real_deserialized": impl.get("deser")}
     if case.get("oracle") == "fc":
         return {"stream": "FunctionCall mapper values (oracle-only)", "case": {k: v for k, v in case.items() if k != "vals"},
                 "real_document": impl.get("doc"), "real_deserialized": impl.get("deser")}
@@ -1291,4 +1300,104 @@ def judge_fc(case, impl):
     if not (r.get("ok") and r.get("equal")):
         fails.append(("functioncall:roundtrip", "deserializing with the inverse FunctionCall does not give the instance back: "
                       "document " + json.dumps(impl["doc"])[:300] + " gave " + json.dumps(r)[:300] + " for " + desc))
+    return None, fails
+
+# ------------------------------------------------------------------ oracle-only stream: non-Integer scalar leaves
+# (the Lean model has Integer leaves only; JSON-native scalars of other kinds pass through both directions unchanged,
+#  so with collision-free mappers the specified document and the round trip can be stated directly — falsy values
+#  "", False, 0.0 included, which a truthiness test in the mapper code would drop)
+
+SCALAR_VALUES = {"str": ["", "a", "x_y", "Hello"], "bool": [False, True], "float": [0.0, 1.5, -2.25], "int": [0, 1, 7]}
+
+
+def scalar_cases(rng, n):
+    out = []
+    for _ in range(n):
+        pool = SAFE_NAMES[:]
+        rng.shuffle(pool)
+        inner = [[pool.pop(), rng.choice(["str", "bool", "float", "int"]), rng.random() < 0.3] for _ in range(rng.randint(1, 3))]
+        outer = [[pool.pop(), rng.choice(["str", "bool", "float", "int"]), rng.random() < 0.3] for _ in range(rng.randint(1, 2))]
+        nest = rng.choice([None, "one", "arr"])
+        out.append({"oracle": "scalar", "inner": inner, "outer": outer, "nest": nest, "nest_field": pool.pop(),
+                    "inner_mapper": _safe_mapper(rng, [f[0] for f in inner]),
+                    "outer_mapper": _safe_mapper(rng, [f[0] for f in outer]),
+                    "camel": rng.random() < 0.35, "strict": rng.random() < 0.3,
+                    "picks": [rng.randrange(12) for _ in range(12)], "absent": [rng.random() < 0.4 for _ in range(8)]})
+    return out
+
+
+def run_scalar(case):
+    from typedpy import Boolean, Float
+    kinds = {"str": String, "bool": Boolean, "float": Float, "int": Integer}
+    camel = case["camel"]
+    picks, absent = iter(case["picks"] * 4), iter(case["absent"] * 4)
+    _counter[0] += 1
+
+    def mk(name, fields, mapper, extra=None, extra_req=()):
+        ns = {f: kinds[k] for f, k, _ in fields}
+        ns.update(extra or {})
+        ns["_required"] = [f for f, _, opt in fields if not opt] + list(extra_req)
+        if mapper is not None:
+            ns["_serialization_mapper"] = to_py_mapper(mapper)
+        return StructMeta(f"{name}{_counter[0]}", (Structure,), ns)
+
+    def inst(cls, fields, **extra):
+        kw = dict(extra)
+        for f, k, opt in fields:
+            if opt and next(absent):
+                continue
+            vals = SCALAR_VALUES[k]
+            kw[f] = vals[next(picks) % len(vals)]
+        return cls(**kw)
+
+    I = mk("SI", case["inner"], case["inner_mapper"])
+    if case["nest"]:
+        O = mk("SO", case["outer"], case["outer_mapper"],
+               {case["nest_field"]: I if case["nest"] == "one" else Array[I]}, [case["nest_field"]])
+        nested = inst(I, case["inner"]) if case["nest"] == "one" else [inst(I, case["inner"]), inst(I, case["inner"])]
+        x = inst(O, case["outer"], **{case["nest_field"]: nested})
+    else:
+        O, x = I, inst(I, case["inner"])
+    # specified document
+    outer_list = [case["outer_mapper"]] if case["nest"] else [case["inner_mapper"]]
+    inner_list = [case["inner_mapper"]] + [m for m in outer_list if m in ("lower", "camel")]
+
+    def doc_of(obj, fields, lst):
+        return {_safe_key(lst, camel, f): getattr(obj, f) for f, _, _ in fields if getattr(obj, f, None) is not None}
+
+    if case["nest"]:
+        spec = doc_of(x, case["outer"], outer_list)
+        v = getattr(x, case["nest_field"])
+        spec[_safe_key(outer_list, camel, case["nest_field"])] = (
+            doc_of(v, case["inner"], inner_list) if case["nest"] == "one" else [doc_of(e, case["inner"], inner_list) for e in v])
+    else:
+        spec = doc_of(x, case["inner"], outer_list)
+    out = {"spec_doc": spec}
+    try:
+        out["doc"] = Serializer(x).serialize(camel_case_convert=camel)
+    except Exception as e:
+        out["ser_err"] = err_name(e)
+        out["ser_msg"] = str(e)[:300]
+        return out
+    try:
+        y = Deserializer(O, camel_case_convert=camel, use_strict_mapping=case["strict"]).deserialize(out["doc"])
+        out["deser"] = {"ok": True, "equal": bool(y == x), "repr": repr(y)[:200]}
+    except Exception as e:
+        out["deser"] = {"err": err_name(e), "msg": str(e)[:300]}
+    return out
+
+
+def judge_scalar(case, impl):
+    fails = []
+    desc = json.dumps({k: v for k, v in case.items() if k not in ("oracle", "picks", "absent")})[:400]
+    if "ser_err" in impl:
+        return None, [(f"scalar-leaves:serialize-raises:{impl['ser_err']}", f"{impl.get('ser_msg')} for {desc}")]
+    if impl["doc"] != impl["spec_doc"] or json.dumps(impl["doc"], sort_keys=True) != json.dumps(impl["spec_doc"], sort_keys=True):
+        fails.append(("scalar-leaves:document", "String / Boolean / Float leaves (falsy values included) must be written under the "
+                      "mapped key unchanged: real " + json.dumps(impl["doc"])[:300] + " specified "
+                      + json.dumps(impl["spec_doc"])[:300] + " for " + desc))
+    r = impl.get("deser", {})
+    if not (r.get("ok") and r.get("equal")):
+        fails.append(("scalar-leaves:roundtrip", "deserialize(serialize(x)) != x with non-Integer scalar leaves: document "
+                      + json.dumps(impl["doc"])[:300] + " gave " + json.dumps(r)[:300] + " for " + desc))
     return None, fails
